@@ -270,7 +270,7 @@ class ForwardScheduler(IScheduler):
             resource_usage: _ResourceUsage,
             calculated: List[int]
     ):
-        if _task.id in calculated:
+        if id(_task) in calculated:
             return
 
         for pred in _task.predecessors:
@@ -331,7 +331,7 @@ class ForwardScheduler(IScheduler):
                 else:
                     _task.end = max([t.end for t in _task.children if t.end is not None])
 
-        calculated.append(_task.id)
+        calculated.append(id(_task))
 
     def calc(self, wbs: WBS) -> Schedule:
         _validate_graph_isolation(wbs)
@@ -466,7 +466,7 @@ class BackwardScheduler(IScheduler):
             resource_usage: _ResourceUsage,
             calculated: List[int]
     ):
-        if _task.id in calculated:
+        if id(_task) in calculated:
             return
 
         for pred in _task.successors:
@@ -522,7 +522,7 @@ class BackwardScheduler(IScheduler):
             else:
                 _task.start = min([t.start for t in _task.children if t.start is not None])
 
-        calculated.append(_task.id)
+        calculated.append(id(_task))
 
     @staticmethod
     def __prepare_tasks(project: WBS):
